@@ -267,7 +267,11 @@ def profile_for(pid, tier):
     elif pid == "C14":
         G["root_kinds"] = {"mask": 5, "vmap": 2, "static": 2}
         G["kinds"]["mask"] = 6
-        P["argchange"] = 0.7
+        P["argchange"] = 0.8
+        P["flag_flip"] = 0.7
+        P["pert_rate"] = 0.9
+        P["perts"].update({"enc:arr": 8, "stage:jit": 6, "boundary:jit-id": 4})
+        P["ops"].update({"importance": 5, "update": 8})
     elif pid == "C15":
         G["root_kinds"] = {"dimap": 8, "map": 2, "contramap": 2, "static": 1}
         G["post_xformed"] = 0.9
@@ -444,7 +448,10 @@ def gen_session(session_seed, pid, tier, profile=None):
                 new_args = list(src["args"])
                 changed = False
                 for i, t in enumerate(ins):
-                    if rng.random() < 0.5 and t != ["N"]:
+                    if t == ["B"] and rng.random() < P.get("flag_flip", 0.0):
+                        new_args[i] = not new_args[i]  # flag transitions T->F / F->T
+                        changed = True
+                    elif rng.random() < 0.5 and t != ["N"]:
                         new_args[i] = sample_value(rng, t, oob=oob and t[0] == "I")
                         changed = True
                 if not changed:
